@@ -140,7 +140,7 @@ func init() {
 						}
 					}},
 				{Name: "n-layers", ShardDepth: 2, Bounds: engine.Bounds{InputDev: -1},
-					Rule: "full product h in small zoom set x base voxel x list shape in {single, face-adjacent pair, identical twice, diagonal pair, triple, three mixed-zoom lists with entries on the edge of their own grid} x hLayers,vLayers in 0..4 (thorough: 0..6, base x,y in HIdx, f in VIdxSmall); set = comprehension over the model, duplicate-free, exact count (2H+1)^2(2V+1)-1 and self-exclusion for a single voxel where 2H+1 <= 2^h; non-trivial = distinct cases with both layer counts > 0",
+					Rule: "full product h in small zoom set x base voxel x list shape in {single, face-adjacent pair, identical twice, diagonal pair, triple, three mixed-zoom lists with entries on the edge of their own grid, two lists whose entries have equal horizontal zoom and equal (or adjacent) index numbers but different vertical zooms} x hLayers,vLayers in 0..4 (thorough: 0..6, base x,y in HIdx, f in VIdxSmall); set = comprehension over the model, duplicate-free, exact count (2H+1)^2(2V+1)-1 and self-exclusion for a single voxel where 2H+1 <= 2^h; non-trivial = distinct cases with both layer counts > 0",
 					Body: func(c *engine.Ctx) {
 						hs := []int64{0, 1, 2, 3, 4, 16, 35}
 						if tier == "thorough" {
@@ -159,7 +159,7 @@ func init() {
 						y := hx[c.In("y", len(hx))]
 						f := fsel[c.In("f", len(fsel))]
 						base := ref.Vox{H: h, X: x, Y: y, V: h, F: f}
-						shape := c.In("shape", 8)
+						shape := c.In("shape", 10)
 						var list []ref.Vox
 						switch shape {
 						case 0:
@@ -185,6 +185,19 @@ func init() {
 								list = []ref.Vox{coarseEdge, fineBig}
 							case 7:
 								list = []ref.Vox{fineBig, base, coarseEdge}
+							}
+						case 8, 9: // equal horizontal zoom and equal index numbers, different vertical zoom: different voxels
+							v2 := h + 1
+							if h == 35 {
+								v2 = h - 1
+							}
+							other := base
+							other.V = v2
+							if shape == 8 {
+								list = []ref.Vox{base, other}
+							} else {
+								o := other.Shift(1, 0, 0)
+								list = []ref.Vox{o, base}
 							}
 						}
 						H := int64(c.In("hLayers", nl))
